@@ -303,16 +303,7 @@ func setup(c *Ctx, im *Impl) *world {
 - work-command:
     worktype: cat
     command: cat
-- work-kubernetes:
-    worktype: kube
-    authmethod: runtime
-    allowruntimeauth: true
-    allowruntimepod: true
-    allowruntimecommand: true
-    allowruntimeparams: true
-    namespace: ns
-    image: img
-`, B.DataDir(), bCrt, bKey, port, B.Sock)
+%s`, B.DataDir(), bCrt, bKey, port, B.Sock, kubeTypesYAML(dir))
 	Must(B.Start())
 	Must(A.Start())
 	w := &world{c: c, im: im, tap: &Tap{}, A: A, B: B, byID: map[string]*unit{}, next: 1, profiles: []string{"cli"}}
